@@ -27,7 +27,11 @@ def main():
         out['demo_with'] = r1.returncode
         t = time.time()
         env = dict(os.environ, VERIF_REPO=wt)
+        evp = '/verif/evidence/%s.json' % prop
+        saved = open(evp).read() if os.path.exists(evp) else None
         rc = subprocess.run(['./check', prop, '--tier', tier], cwd='/verif', env=env, stdout=subprocess.PIPE, stderr=subprocess.STDOUT, text=True)
+        if saved is not None:
+            open(evp, 'w').write(saved)      # the evidence file describes runs on /repo, not on a mutated tree
         out['check_exit'] = rc.returncode
         out['check_tail'] = rc.stdout.strip().split('\n')[-4:]
         out['check_wall_s'] = round(time.time() - t, 1)
